@@ -130,9 +130,13 @@ func setup() (*alphabet, *algz.Trie, [][]int, []string) {
 	var pats [][]int
 	var strs []string
 	for i := 0; i < np; i++ {
-		p := chooseLetters(pl, nl)
-		if i == np-1 && vx.Param("lastlen", 0) > 0 {
+		var p []int
+		if n := vx.Param([]string{"len0", "len1", "len2", "len3"}[i%4], -1); n >= 0 && i < 4 {
+			p = chooseLettersExact(n, nl) // pattern i has exactly n letters (deep failure-link chains, nestings)
+		} else if i == np-1 && vx.Param("lastlen", 0) > 0 {
 			p = chooseLettersExact(vx.Param("lastlen", 0), nl)
+		} else {
+			p = chooseLetters(pl, nl)
 		}
 		pats = append(pats, p)
 		s := a.str(p)
@@ -244,6 +248,22 @@ func Replace() {
 	}
 	gotMask := t.ReplaceWithMask(ts, mask)
 	vx.AssertSig(vx.EqStr(gotMask, string(wantMask)), "ReplaceWithMask replaces exactly the runes inside pattern occurrences", "mask-inexact")
+	if vx.Param("emptyrepl", 0) == 1 {
+		// empty replacement: the output is exactly the uncovered part of the text
+		var want []byte
+		for i, l := range text {
+			if covered[i] {
+				continue
+			}
+			if l < 0 {
+				want = append(want, a.bad...)
+			} else {
+				want = append(want, a.enc[l]...)
+			}
+		}
+		vx.AssertSig(vx.EqStr(t.Replace(ts, ""), string(want)), "Replace with an empty replacement removes exactly the covered bytes", "replace-inexact")
+		return
+	}
 	// Replace with a byte that cannot occur in the text alphabet
 	out := t.Replace(ts, "\x01")
 	pos := 0
